@@ -1,5 +1,6 @@
-(* C12 at the text level, for schemas without descriptions ([text_schema]:
-   default values and applied custom directives included): the text the
+(* C12 at the text level, for schemas whose members carry no descriptions
+   ([desc_schema]: descriptions of types and directive definitions, default
+   values and applied custom directives included): the text the
    schema printer writes parses (parser model of C01, through the C03 round
    trip) to a document that builds (C11_exact_build) a schema equivalent to
    the one printed, and printing that schema gives the same text again. *)
@@ -7,47 +8,94 @@ From PyGql Require Import Lang.PrinterModel Spec.PrinterSpec Lang.Parser Spec.Gr
                           Proofs.PrinterRoundtrip Proofs.PrinterSdlRoundtrip.
 From PyGql Require Import Spec.SdlSpec Schema.SdlPrint Spec.SdlRoundtripSpec.
 From PyGql Require Import Proofs.SdlProofs Proofs.SdlExactProofs Proofs.SdlOrderProofs Proofs.SdlPrintProofs
-                          Proofs.SdlTextProofs Proofs.SdlTextSchemaProofs Proofs.SdlDocRoundtripProofs
-                          Proofs.SdlValidInvProofs Proofs.SdlDocRulesProofs.
+                          Proofs.SdlTextProofs Proofs.SdlTextSchemaProofs Proofs.SdlDescLexProofs Proofs.SdlTextDescProofs
+                          Proofs.SdlDocRoundtripProofs Proofs.SdlValidInvProofs Proofs.SdlDocRulesProofs.
 From Coq Require Import Lia Sorting.Permutation Sorting.Sorted.
 
 (* the guards that exclude the open findings: every default's literal coerces
    back at its declared type (custom-scalar-numeric-string-default of C12),
    and the emitted document is outside the two findings of C11 *)
+Definition doc_s (sc : schema) : document := doc_d (POpts [] true false CustomOff) sc.
+
+Lemma doc_d_s o sc : doc_d o sc = doc_s sc.
+Proof. apply doc_d_indep. Qed.
+
 Definition defaults_guard (sc : schema) : Prop :=
-  (forall a, In a (schema_ivalues sc) -> default_rt (env_of_schema [] sc) (declared_env (doc_of sc)) a)
-  /\ defaults_stable (doc_of sc).
+  (forall a, In a (schema_ivalues sc) -> default_rt (env_of_schema [] sc) (declared_env (doc_s sc)) a)
+  /\ defaults_stable (doc_s sc).
+
+(* schemas without descriptions are a special case *)
+Lemma clear_tdesc_id t : tdef_desc t = None -> clear_tdesc t = t.
+Proof. destruct t; cbn; intros ->; reflexivity. Qed.
+
+Lemma text_schema_desc o sc : text_schema o sc -> desc_schema o sc.
+Proof.
+  intros (Ht & Hd & Hr & Hne). split; [|split; [|split; assumption]].
+  - eapply Forall_impl; [|exact Ht]. intros t Hp. pose proof Hp as (Hde & _). split; [rewrite (clear_tdesc_id t Hde); exact Hp|].
+    rewrite Hde. exact I.
+  - eapply Forall_impl; [|exact Hd]. intros d Hp. pose proof Hp as (Hde & _). split; [|rewrite Hde; exact I].
+    unfold clear_ddesc. destruct d as [n de l a]. cbn in Hde. subst de. exact Hp.
+Qed.
 
 (* without default values the guards hold *)
 Definition no_defaults (sc : schema) : Prop := forall a, In a (schema_ivalues sc) -> siv_default a = None.
 
-Lemma iv_of_no_default E0 a : siv_default a = None -> iv_default (iv_of E0 a) = None.
-Proof. intros H. unfold iv_of, dflt_of. rewrite H. reflexivity. Qed.
-
-Lemma no_defaults_guard o sc : text_schema o sc -> no_defaults sc -> defaults_guard sc.
+Lemma Forall2_in_right {A B} (R : A -> B -> Prop) l1 l2 y :
+  Forall2 R l1 l2 -> In y l2 -> exists x, In x l1 /\ R x y.
 Proof.
-  intros Hp Hnd. split.
+  induction 1 as [|a b l1 l2 Hab _ IH]; intros Hin; [destruct Hin|].
+  destruct Hin as [<-|Hin]; [exists a; split; [left; reflexivity|exact Hab]|].
+  destruct (IH Hin) as (x & Hx & HR). exists x. split; [right; exact Hx|exact HR].
+Qed.
+
+Lemma ast_no_defaults sc d :
+  ast_of_schema sc = Ok d -> no_defaults sc ->
+  forall x iv, In x (doc_defs d) -> In iv (def_ivalues x) -> iv_default iv = None.
+Proof.
+  intros Hast Hnd x iv Hx Hiv. destruct (ast_of_schema_inv sc d Hast) as (dds & tds & Fd & Ft & ->).
+  set (E := env_of_schema [] sc) in *. cbn [doc_defs] in Hx.
+  assert (Hargs : forall l ivs, Forall2 (fun a iv => ivdef_of E a = Ok iv) l ivs ->
+            (forall a, In a l -> siv_default a = None) -> In iv ivs -> iv_default iv = None).
+  { intros l ivs F Hl Hin. destruct (Forall2_in_right _ _ _ _ F Hin) as (a & Ha & Hiva).
+    destruct (ivdef_of_facts E a iv Hiva) as (_ & _ & Hdef). rewrite (Hl a Ha) in Hdef. exact Hdef. }
+  apply in_app_or in Hx. destruct Hx as [Hx|Hx].
+  - unfold schema_defs in Hx. destruct (schema_def_needed sc); [|contradiction]. destruct Hx as [<-|[]]. destruct Hiv.
+  - apply in_app_or in Hx. destruct Hx as [Hx|Hx].
+    + destruct (Forall2_in_right _ _ _ _ Fd Hx) as (dd & Hdd & Hdef). apply sort_by_in in Hdd.
+      destruct (def_of_ddef_shape E dd x Hdef) as (args & -> & Ho). cbn [def_ivalues] in Hiv.
+      apply (Hargs _ _ (omap_inv _ _ _ Ho)); [|exact Hiv].
+      intros a Ha. apply Hnd. unfold schema_ivalues. apply in_or_app; right. apply in_flat_map. eauto.
+    + destruct (Forall2_in_right _ _ _ _ Ft Hx) as (t & Ht & Hdef). apply sort_by_in in Ht.
+      assert (Hin : forall a, In a (tdef_ivalues t) -> siv_default a = None).
+      { intros a Ha. apply Hnd. unfold schema_ivalues. apply in_or_app; left. apply in_flat_map. eauto. }
+      assert (Hfields : forall fs fds, omap (fdef_of E) fs = Ok fds ->
+                (forall a, In a (flat_map sf_args fs) -> siv_default a = None) ->
+                In iv (flat_map fd_args fds) -> iv_default iv = None).
+      { intros fs fds Ho Hl Hi. apply in_flat_map in Hi. destruct Hi as (fd & Hfd & Hi).
+        destruct (Forall2_in_right _ _ _ _ (omap_inv _ _ _ Ho) Hfd) as (f & Hf & Hff).
+        destruct (fdef_of_facts E f fd Hff) as (_ & Fa & _). apply (Hargs _ _ Fa); [|exact Hi].
+        intros a Ha. apply Hl. apply in_flat_map. eauto. }
+      destruct t as [n de ds|n de is_ fs ds|n de fs ds|n de ms ds|n de vs ds|n de fs ds];
+        cbn [def_of_tdef tdef_ivalues] in Hdef, Hin.
+      * inversion Hdef; subst x. destruct Hiv.
+      * destruct (omap (fdef_of E) fs) as [fds| | |] eqn:Ho; cbn [obind] in Hdef; try discriminate. inversion Hdef; subst x.
+        cbn [def_ivalues] in Hiv. apply (Hfields _ _ Ho Hin Hiv).
+      * destruct (omap (fdef_of E) fs) as [fds| | |] eqn:Ho; cbn [obind] in Hdef; try discriminate. inversion Hdef; subst x.
+        cbn [def_ivalues] in Hiv. apply (Hfields _ _ Ho Hin Hiv).
+      * inversion Hdef; subst x. destruct Hiv.
+      * inversion Hdef; subst x. destruct Hiv.
+      * destruct (omap (ivdef_of E) fs) as [ivs| | |] eqn:Ho; cbn [obind] in Hdef; try discriminate. inversion Hdef; subst x.
+        cbn [def_ivalues] in Hiv. apply (Hargs _ _ (omap_inv _ _ _ Ho) Hin Hiv).
+Qed.
+
+Lemma no_defaults_guard o sc : desc_schema o sc -> no_defaults sc -> defaults_guard sc.
+Proof.
+  intros Hp Hnd. pose proof (ast_of_schema_desc o sc Hp) as Hast. rewrite doc_d_s in Hast. split.
   - intros a Ha. unfold default_rt. rewrite (Hnd a Ha). discriminate.
-  - assert (Hdoc : forall x iv, In x (doc_defs (doc_of sc)) -> In iv (def_ivalues x) -> iv_default iv = None).
-    { unfold doc_of. cbn [doc_defs]. intros x iv Hx Hiv. apply in_app_or in Hx. destruct Hx as [Hx|Hx].
-      - destruct (schema_def_needed sc); [|contradiction]. destruct Hx as [<-|[]]. contradiction.
-      - apply in_app_or in Hx. destruct Hx as [Hx|Hx]; apply in_map_iff in Hx; destruct Hx as (y & <- & Hy);
-          apply sort_by_in in Hy.
-        + cbn [ddef1_of def_ivalues] in Hiv. apply in_map_iff in Hiv. destruct Hiv as (a & <- & Ha).
-          apply iv_of_no_default. apply Hnd. unfold schema_ivalues. apply in_or_app; right. apply in_flat_map. eauto.
-        + assert (Hin : forall a, In a (tdef_ivalues y) -> siv_default a = None).
-          { intros a Ha. apply Hnd. unfold schema_ivalues. apply in_or_app; left. apply in_flat_map. eauto. }
-          destruct y; cbn [def1_of def_ivalues tdef_ivalues] in Hiv, Hin; try contradiction.
-          * apply in_flat_map in Hiv. destruct Hiv as (f & Hf & Hiv). apply in_map_iff in Hf. destruct Hf as (g & <- & Hg).
-            cbn [fd_of fd_args] in Hiv. apply in_map_iff in Hiv. destruct Hiv as (a & <- & Ha).
-            apply iv_of_no_default. apply Hin. apply in_flat_map. eauto.
-          * apply in_flat_map in Hiv. destruct Hiv as (f & Hf & Hiv). apply in_map_iff in Hf. destruct Hf as (g & <- & Hg).
-            cbn [fd_of fd_args] in Hiv. apply in_map_iff in Hiv. destruct Hiv as (a & <- & Ha).
-            apply iv_of_no_default. apply Hin. apply in_flat_map. eauto.
-          * apply in_map_iff in Hiv. destruct Hiv as (a & <- & Ha). apply iv_of_no_default. apply Hin. exact Ha. }
+  - pose proof (ast_no_defaults sc (doc_s sc) Hast Hnd) as Hdoc.
     split; intros iv Hin v Hv; exfalso.
     + unfold base_ivalues in Hin. apply in_flat_map in Hin. destruct Hin as (x & Hx & Hiv).
-      assert (Hx' : In x (doc_defs (doc_of sc))).
+      assert (Hx' : In x (doc_defs (doc_s sc))).
       { apply in_app_or in Hx. destruct Hx as [Hx|Hx]; apply filter_In in Hx; apply Hx. }
       rewrite (Hdoc x iv Hx' Hiv) in Hv. discriminate.
     + unfold ext_ivalues, type_exts in Hin. apply in_flat_map in Hin. destruct Hin as (x & Hx & Hiv).
@@ -57,7 +105,7 @@ Qed.
 
 (* C12_text_roundtrip *)
 Theorem text_roundtrip intro spec o fl sc text :
-  text_schema o sc -> valid_locations sc -> schema_okb sc = true -> defaults_guard sc ->
+  desc_schema o sc -> valid_locations sc -> schema_okb sc = true -> defaults_guard sc ->
   po_introspection o = false ->
   no_location fl = true -> allow_type_system fl = true -> all_ws (po_indent o) ->
   print_schema intro spec o sc = Ok text ->
@@ -67,11 +115,12 @@ Theorem text_roundtrip intro spec o fl sc text :
                 /\ declares_again sc sc'.
 Proof.
   intros Hp Hl Hok [Hrt Hstable] Hi Hnl Hts Hws Hprint.
-  destruct (text_parses_to_ast intro spec o fl sc text Hp Hl Hi Hnl Hts Hws Hprint) as [Hparse Hast].
-  exists (doc_of sc), (declared (doc_of sc)). split; [exact Hparse|].
-  destruct (members_roundtrip_guarded sc (doc_of sc) Hok Hast Hrt Hstable) as (_ & Hb & He & _).
+  destruct (text_parses_desc intro spec o fl sc text Hp Hl Hi Hnl Hts Hws Hprint) as [Hparse Hast].
+  rewrite doc_d_s in Hparse, Hast.
+  exists (doc_s sc), (declared (doc_s sc)). split; [exact Hparse|].
+  destruct (members_roundtrip_guarded sc (doc_s sc) Hok Hast Hrt Hstable) as (_ & Hb & He & _).
   split; [exact Hb|]. split; [exact He|].
-  exact (declared_of_ast_struct sc (doc_of sc) Hok Hast Hrt).
+  exact (declared_of_ast_struct sc (doc_s sc) Hok Hast Hrt).
 Qed.
 
 (* ------------------------------------------------------------------ *)
@@ -288,28 +337,77 @@ Proof.
     eapply has_dup_perm; [apply Permutation_map; apply Permutation_sym; apply sort_by_perm|exact Hdup].
 Qed.
 
+Lemma clear_strip t : strip_tdef (clear_tdesc t) = clear_tdesc (strip_tdef t).
+Proof. destruct t; reflexivity. Qed.
+
+Lemma strip_tdef_desc a b : strip_tdef a = strip_tdef b -> tdef_desc a = tdef_desc b.
+Proof. destruct a, b; cbn [strip_tdef tdef_desc]; intros H; try discriminate; injection H; intros; subst; reflexivity. Qed.
+
+Section DescTransfer.
+  Variable o : popts.
+  Variables E0 E0' : env.
+  Hypothesis Henv : forall n, alookup n E0 = alookup n E0'.
+
+  Lemma strip_dt_tdef a b :
+    strip_tdef a = strip_tdef b -> dt_tdef o E0 b ->
+    dt_tdef o E0' a /\ text_d o E0' a = text_d o E0 b /\ def_d E0' a = def_d E0 b.
+  Proof.
+    intros H [Hp Hd]. pose proof (strip_tdef_desc a b H) as Hde.
+    assert (Hc : strip_tdef (clear_tdesc a) = strip_tdef (clear_tdesc b)) by (rewrite !clear_strip, H; reflexivity).
+    destruct (strip_tdef_plain o E0 E0' Henv _ _ Hc Hp) as [Pa Ga].
+    split; [split; [exact Pa|rewrite Hde; exact Hd]|]. split.
+    - unfold text_d. rewrite Hde. f_equal.
+      rewrite <- (pr_definition_plain o E0' _ Pa), <- (pr_definition_plain o E0 _ Hp), Ga. reflexivity.
+    - unfold def_d. rewrite Hde, Ga. reflexivity.
+  Qed.
+
+  Lemma strip_dt_ddef a b :
+    strip_ddef a = strip_ddef b -> dt_ddef o E0 b ->
+    dt_ddef o E0' a /\ dtext_d o E0' a = dtext_d o E0 b /\ ddef_d E0' a = ddef_d E0 b.
+  Proof.
+    intros H [Hp Hd].
+    assert (Hde : dd_desc a = dd_desc b) by (destruct a, b; unfold strip_ddef in H; cbn in H; injection H; intros; subst; reflexivity).
+    assert (Hc : strip_ddef (clear_ddesc a) = strip_ddef (clear_ddesc b)).
+    { destruct a, b; unfold strip_ddef, clear_ddesc in *; cbn in *. injection H; intros; subst. f_equal; assumption. }
+    destruct (strip_ddef_plain o E0 E0' Henv _ _ Hc Hp) as [Pa Ga].
+    split; [split; [exact Pa|rewrite Hde; exact Hd]|]. split.
+    - unfold dtext_d. rewrite Hde. f_equal.
+      rewrite <- (pr_ddef_plain o E0' _ Pa), <- (pr_ddef_plain o E0 _ Hp), Ga. reflexivity.
+    - unfold ddef_d. rewrite Hde, Ga. reflexivity.
+  Qed.
+End DescTransfer.
+
+Lemma map_eq_transfer3 {A B C} (s : A -> A) (P Q : A -> Prop) (g g' : A -> B) (h h' : A -> C) :
+  (forall a b, s a = s b -> P b -> Q a /\ g' a = g b /\ h' a = h b) ->
+  forall l1 l2, map s l1 = map s l2 -> Forall P l2 ->
+    Forall Q l1 /\ map (fun x => (g' x, h' x)) l1 = map (fun x => (g x, h x)) l2.
+Proof.
+  intros H. induction l1 as [|a l1 IH]; intros [|b l2] He Hf; try discriminate; [split; [constructor|reflexivity]|].
+  cbn [map] in He. injection He as Hab Hl. inversion Hf as [|? ? Hb Hl2]; subst.
+  destruct (H a b Hab Hb) as (Pa & Ga & Ha). destruct (IH l2 Hl Hl2) as [Pl Gl].
+  split; [constructor; assumption|]. cbn [map]. rewrite Ga, Ha, Gl. reflexivity.
+Qed.
+
 Lemma declares_again_doc o sc sc' :
-  text_schema o sc -> has_dup (map tdef_name (s_types sc)) = false ->
-  declares_again sc sc' -> text_schema o sc' /\ doc_of sc' = doc_of sc.
+  desc_schema o sc -> has_dup (map tdef_name (s_types sc)) = false ->
+  declares_again sc sc' -> desc_schema o sc' /\ doc_items o sc' = doc_items o sc.
 Proof.
   intros (Ht & Hd & Hr & Hne) Hdup Hda. pose proof (env_declares_again sc sc' Hdup Hda) as Henv.
   destruct Hda as (Hts & HD & Rq & Rm & Rs & Rd).
   set (E0 := env_of_schema [] sc) in *. set (E0' := env_of_schema [] sc') in *.
   set (st := sort_by tdef_name (s_types sc)) in *. set (sd := sort_by dd_name (s_ddefs sc)) in *.
-  assert (Hst : Forall (plain_tdef o E0) st) by (apply sort_by_Forall; exact Ht).
-  assert (Hsd : Forall (plain_ddef o E0) sd) by (apply sort_by_Forall; exact Hd).
-  destruct (map_eq_transfer strip_tdef (plain_tdef o E0) (plain_tdef o E0') (def1_of E0) (def1_of E0')
-              (strip_tdef_plain o E0 E0' Henv) _ _ Hts Hst) as [Pt Gt].
-  destruct (map_eq_transfer strip_ddef (plain_ddef o E0) (plain_ddef o E0') (ddef1_of E0) (ddef1_of E0')
-              (strip_ddef_plain o E0 E0' Henv) _ _ HD Hsd) as [Pd Gd].
-  (* the rebuilt lists are sorted already *)
+  assert (Hst : Forall (dt_tdef o E0) st) by (apply sort_by_Forall; exact Ht).
+  assert (Hsd : Forall (dt_ddef o E0) sd) by (apply sort_by_Forall; exact Hd).
+  destruct (map_eq_transfer3 strip_tdef (dt_tdef o E0) (dt_tdef o E0') (text_d o E0) (text_d o E0') (def_d E0) (def_d E0')
+              (strip_dt_tdef o E0 E0' Henv) _ _ Hts Hst) as [Pt Gt].
+  destruct (map_eq_transfer3 strip_ddef (dt_ddef o E0) (dt_ddef o E0') (dtext_d o E0) (dtext_d o E0') (ddef_d E0) (ddef_d E0')
+              (strip_dt_ddef o E0 E0' Henv) _ _ HD Hsd) as [Pd Gd].
   assert (Hsort_t : sort_by tdef_name (s_types sc') = s_types sc').
   { apply sort_by_id. apply (sorted_by_keys tdef_name tdef_name _ st); [|apply sort_by_sorted].
     rewrite <- (strip_names (s_types sc')), <- (strip_names st), Hts. reflexivity. }
   assert (Hsort_d : sort_by dd_name (s_ddefs sc') = s_ddefs sc').
   { apply sort_by_id. apply (sorted_by_keys dd_name dd_name _ sd); [|apply sort_by_sorted].
     rewrite <- (strip_ddef_names (s_ddefs sc')), <- (strip_ddef_names sd), HD. reflexivity. }
-  (* default roots *)
   assert (Pst : Permutation st (s_types sc)) by apply sort_by_perm.
   assert (Hnd : NoDup (map tdef_name st)).
   { apply has_dup_NoDup. eapply has_dup_perm; [apply Permutation_map; apply Permutation_sym; exact Pst|exact Hdup]. }
@@ -319,26 +417,27 @@ Proof.
   assert (Hneeded : schema_def_needed sc' = schema_def_needed sc).
   { unfold schema_def_needed. rewrite !root_is_default_alt, Rq, Rm, Rs, Rd, !Hdr. reflexivity. }
   assert (Hsdef : sdef_of sc' = sdef_of sc) by (unfold sdef_of; rewrite Rq, Rm, Rs, Rd; reflexivity).
+  assert (Hstext : sdef_text o sc' = sdef_text o sc) by (unfold sdef_text; rewrite Rq, Rm, Rs, Rd; reflexivity).
   split.
   - split; [exact Pt|]. split; [exact Pd|]. split.
     + destruct Hr as (Hn & Hq & Hm & Hs). unfold plain_roots, dirs_ok in *. rewrite Rq, Rm, Rs, Rd.
       repeat split; try assumption; apply Hn.
     + eapply map_eq_nonempty; [exact Hts|]. apply sort_by_nonempty; exact Hne.
-  - unfold doc_of. fold E0 E0' st sd. rewrite Hsort_t, Hsort_d, Gt, Gd, Hneeded, Hsdef. reflexivity.
+  - unfold doc_items. fold E0 E0' st sd. rewrite Hsort_t, Hsort_d, Gt, Gd, Hneeded, Hsdef, Hstext. reflexivity.
 Qed.
 
 (* C12_fixpoint: a schema that declares [sc] again prints to the same text *)
 Theorem fixpoint_declares_again intro spec o sc sc' :
-  text_schema o sc -> has_dup (map tdef_name (s_types sc)) = false -> declares_again sc sc' ->
+  desc_schema o sc -> has_dup (map tdef_name (s_types sc)) = false -> declares_again sc sc' ->
   po_introspection o = false ->
   print_schema intro spec o sc' = print_schema intro spec o sc.
 Proof.
   intros Hp Hdup Hda Hi. destruct (declares_again_doc o sc sc' Hp Hdup Hda) as [Hp' Hdoc].
-  rewrite (print_is_print_ast o intro spec sc Hp Hi), (print_is_print_ast o intro spec sc' Hp' Hi), Hdoc. reflexivity.
+  rewrite (print_schema_desc intro spec o sc Hp Hi), (print_schema_desc intro spec o sc' Hp' Hi), Hdoc. reflexivity.
 Qed.
 
 Theorem text_roundtrip_fixpoint intro spec o fl sc text :
-  text_schema o sc -> valid_locations sc -> schema_okb sc = true -> defaults_guard sc ->
+  desc_schema o sc -> valid_locations sc -> schema_okb sc = true -> defaults_guard sc ->
   po_introspection o = false ->
   no_location fl = true -> allow_type_system fl = true -> all_ws (po_indent o) ->
   print_schema intro spec o sc = Ok text ->
